@@ -27,13 +27,17 @@ func init() {
 				"'above the limit' exactly when that stamp is set and not older than the interval.",
 			NotCovered: "that the ring buffer of golibs behaves as a ring (trusted), so that R7's structure (limit+1 slots, push before read, comparison with " +
 				"the interval) yields an exact sliding window; the expiry timing of the backoff tables (temporal facts outside static reach); the allowlist's own matching.",
-			Rules: map[string]string{"C09-R17": "every path of the rate-limiting middleware that serves a plain-DNS query has asked the global limiter (the only implementation of refuse_any and of the allowlist) first", "C09-R16": "subnets converted between the backend, the internal and the file-cache representations keep their prefix length as it is (a /0 stays a /0)", "C09-R15": "NewBackoff: request counters expire after Period, hit counters after Duration", "C09-R14": "configuration objects handed to constructors that keep them are built per server (hand-off rule shared with C15-R6)", "C09-RC": "class rules (error chains, shadowed results, character classes, crossed arguments, pool constructors, array pools, loop completeness, loop-carried buffers, replacing setters, complete clones, Grow arithmetic, pooled-buffer escape, sorted searches, fresh decode targets, per-iteration objects, whole-message copies, codec guards) over the packages this property rests on", "C09-R13": "backendpb.RateLimitSettings.toInternal: the profile's own limiter exactly when present and enabled (an empty subnet list is not a reason to fall back to the global one)", "C09-R12": "DynamicAllowlist.IsAllowed: exempt exactly when some persistent or dynamic subnet contains the address; the dynamic part is read under the lock; constructor field map", "C09-R11": "list setters (DynamicAllowlist.Update, …) replace the list: no append onto the previous contents of the same field", "C09-R1": "middleware gate tables", "C09-R2": "limiter check order, family selection, keying", "C09-R3": "profile limiter table",
+			Rules: map[string]string{"C09-R18": "serveDNSMsgInternal writes nothing when the handler returns nil without a response, so a query dropped by the limiter stays unanswered (tables shared with C01-R2 and C01-R3)", "C09-R17": "every path of the rate-limiting middleware that serves a plain-DNS query has asked the global limiter (the only implementation of refuse_any and of the allowlist) first", "C09-R16": "subnets converted between the backend, the internal and the file-cache representations keep their prefix length as it is (a /0 stays a /0)", "C09-R15": "NewBackoff: request counters expire after Period, hit counters after Duration", "C09-R14": "configuration objects handed to constructors that keep them are built per server (hand-off rule shared with C15-R6)", "C09-RC": "class rules (error chains, shadowed results, character classes, crossed arguments, pool constructors, array pools, loop completeness, loop-carried buffers, replacing setters, complete clones, Grow arithmetic, pooled-buffer escape, sorted searches, fresh decode targets, per-iteration objects, whole-message copies, codec guards) over the packages this property rests on", "C09-R13": "backendpb.RateLimitSettings.toInternal: the profile's own limiter exactly when present and enabled (an empty subnet list is not a reason to fall back to the global one)", "C09-R12": "DynamicAllowlist.IsAllowed: exempt exactly when some persistent or dynamic subnet contains the address; the dynamic part is read under the lock; constructor field map", "C09-R11": "list setters (DynamicAllowlist.Update, …) replace the list: no append onto the previous contents of the same field", "C09-R1": "middleware gate tables", "C09-R2": "limiter check order, family selection, keying", "C09-R3": "profile limiter table",
 				"C09-R4": "window counter under its lock", "C09-R9": "builder wiring: the configured allowlist is the persistent part of the dynamic allowlist", "C09-R8": "the dynamic allowlist is replaced only after a successful load (a failed refresh keeps the previous allowlist)", "C09-R7": "window counter structure: the ring holds limit+1 time stamps; every event (also one that is dropped) is pushed before the oldest one is read; the event is above the limit iff the oldest kept stamp is set and within the interval", "C09-R5": "every estimated response is counted", "C09-R6": "configuration-to-limiter field map (each family's count, interval and key length under its own name)"},
 		}})
 }
 
 func runC09(c *an.Ctx) {
 	classSweep(c, "C09")
+	// ---- R18: a handler that returns without writing leaves a plain-DNS query unanswered: the server adds no
+	// response of its own (tables of serveDNSMsgInternal, shared with C01-R2 / C01-R3)
+	c.Floor("C09-R18", 2)
+	c.Borrow("C09-R18", runC01, func(o an.Obligation) bool { return (o.Rule == "C01-R2" || o.Rule == "C01-R3") && strings.Contains(o.Key, "serveDNSMsgInternal") })
 	// ---- R17: ANY refusal reaches every path that serves a plain-DNS query
 	if n := c09AnyRefusal(c, "C09-R17"); n < 3 {
 		c.Und("C09-R17", "serving paths of the rate-limiting middleware", token.NoPos, "only %d ServeDNS calls found in the serveWith…Ratelimiting functions", n)
